@@ -121,8 +121,13 @@ func (d *Decoder) decodeSlice(pkt *rtp.Packet) ([]byte, error) {
 			return nil, fmt.Errorf("discarding frame since a RTP packet is missing")
 		}
 
-		d.fragments = append(d.fragments, pkt.Payload[4:])
 		d.fragmentsSize += len(pkt.Payload[4:])
+		if d.fragmentsSize > maxFrameSize {
+			errSize := d.fragmentsSize
+			d.resetFragments()
+			return nil, fmt.Errorf("frame size (%d) is too big, maximum is %d", errSize, maxFrameSize)
+		}
+		d.fragments = append(d.fragments, pkt.Payload[4:])
 
 		slice := joinFragments(d.fragments, d.fragmentsSize)
 		d.resetFragments()
@@ -138,8 +143,13 @@ func (d *Decoder) decodeSlice(pkt *rtp.Packet) ([]byte, error) {
 			return nil, fmt.Errorf("discarding frame since a RTP packet is missing")
 		}
 
-		d.fragments = append(d.fragments, pkt.Payload[4:])
 		d.fragmentsSize += len(pkt.Payload[4:])
+		if d.fragmentsSize > maxFrameSize {
+			errSize := d.fragmentsSize
+			d.resetFragments()
+			return nil, fmt.Errorf("frame size (%d) is too big, maximum is %d", errSize, maxFrameSize)
+		}
+		d.fragments = append(d.fragments, pkt.Payload[4:])
 		d.fragmentNextSeqNum++
 		return nil, ErrMorePacketsNeeded
 	}
